@@ -709,6 +709,20 @@ func (w *c01World) oneOp() {
 		env := w.env(app, p.id, 0, false)
 		ok := w.deliver(&vaulttypes.MsgCreateRequest{From: user.String(), AppId: app, ExtendedPairVaultId: p.id, AmountIn: in, AmountOut: out})
 		emit("create", un, u(app), u(p.id), in.String(), out.String(), env, ok)
+		if ok && r.Chance(12) {
+			// closed in the block it was opened in: no interest has accrued, the closing fee is the only thing the collector gets
+			if vs := w.vaultsOf(user.String()); len(vs) > 0 {
+				v := vs[len(vs)-1]
+				need := v.AmountOut.Add(v.InterestAccumulated).Add(v.ClosingFeeAccumulated)
+				if bal := w.app.BankKeeper.GetBalance(w.ctx, user, w.denomOf[p.assetOut]).Amount; bal.LT(need) {
+					w.fund(user, p.assetOut, need.Sub(bal))
+				}
+				env2 := w.env(v.AppId, v.ExtendedPairVaultID, v.Id, true)
+				okk := w.deliver(&vaulttypes.MsgCloseRequest{From: user.String(), AppId: v.AppId, ExtendedPairVaultId: v.ExtendedPairVaultID, UserVaultId: v.Id})
+				w.tr.Count(fmt.Sprintf("op:close-in-opening-block:closingfee>0=%v", v.ClosingFeeAccumulated.IsPositive()))
+				emit("close", un, u(v.AppId), u(v.ExtendedPairVaultID), u(v.Id), "-", env2, okk)
+			}
+		}
 	case c < 34: // stable create
 		amt := w.amount(1 + r.Intn(3))
 		if r.Chance(80) {
